@@ -739,6 +739,22 @@ def rule_key_injective(ctx) -> None:
                "so there is not one edge per unordered pair") if hits else "")
 
 
+def rule_ids_are_strings(ctx) -> None:
+    """observe_retrieval folds duplicates, sorts and pairs the adapted items BY THEIR IDS before _edge_key turns them into
+    strings: an id that is not a str there makes 7 and "7" two entries for one node (a self-loop, its pairs raised twice) and
+    1 / 1.0 / True one entry whose key follows the listing.  Every branch of the item adapter returns its id as str(...) (or
+    repr(...)): sibling branches agree."""
+    fn = ctx.func(GEL + ":_as_id_score")
+    rets = [r for r in walk_no_defs(fn.node) if isinstance(r, ast.Return) and isinstance(r.value, ast.Tuple) and len(r.value.elts) == 2]
+    ctx.floor("C18.KEY", "returns of the item adapter", len(rets), 3)
+    for r in rets:
+        idv = r.value.elts[0]
+        ok = isinstance(idv, ast.Call) and dotted(idv.func) in ("str", "repr")
+        ctx.check(ok, "C18.KEY", ctx.okey(f"{fn.qual}/id-is-a-string"), fn.loc(r), f"`{src(idv)[:30]}` is a string", 
+                  f"this branch returns the id as `{src(idv)[:30]}`, not str(...): the sibling branches stringify; a non-string id (7 next to \"7\", 1 next to 1.0 / True) is de-duplicated and sorted "
+                  "as another value than the key it later gets - one node appears twice (self-loop, pairs raised twice) or the key depends on the listing order")
+
+
 def rule_promotion_idempotent(ctx) -> None:
     """"promotion is idempotent": the clustering that feeds promotion must not see what promotion wrote.  apply_promotion
     attaches concept<->member edges under a relation of its own; the adjacency builder of merge / split candidates skips edges
@@ -920,6 +936,7 @@ def run(ctx) -> None:
     rule_scope(ctx)
     rule_observe_records(ctx)
     rule_key_injective(ctx)
+    rule_ids_are_strings(ctx)
     rule_promotion_idempotent(ctx)
     rule_gate(ctx)
     rule_no_module_state(ctx)
